@@ -2,28 +2,36 @@
 
 Proof architecture (what the obligations add up to).  timmes.py returns
 
-    u(x,tau) = u_const + sum_pieces cu1 * INT upart1 d eta + sum_pieces cu2(tau) * INT upart2 d eta
-    v(x,tau) = c_uans * u + v_const + sum cv1 * INT vpart1 + sum cv2(tau) * INT vpart2
+    u(x,tau) = u_const + sum_pieces cu1 * INT upart1 d eta + sum_pieces cu2 * INT upart2 d eta
+    v(x,tau) = c_uans * u + v_const + sum_pieces cv1 * INT vpart1 d eta + sum_pieces cv2 * INT vpart2 d eta
 
-The harness runs the REAL usolution / vsolution with scipy's quad / brentq replaced by contract stubs
-(quad -> fresh symbol, brentq -> fresh root of the real root function); every coefficient is the exact
-derivative of the returned term w.r.t. the stub symbol, every integrand is the real upart*/vpart*
-evaluated by the stub at the moment quad is called (so it sees the common block as the quadrature
-would) at a symbolic integration variable.  z3 then decides, for all x, tau, eps and all values of
-the integration variable:
+with INT = scipy quad over sub-intervals of [0,1] split at brentq roots.  Everything below runs the REAL
+functions; quad / brentq are contract stubs (quad -> fresh symbol, brentq -> fresh point of the bracket that
+is a zero of the real root function), every weight c.. is the exact derivative of the returned term with
+respect to a quad symbol, every integrand is the real upart*/vpart* at a symbolic integration variable.
 
-  pde.family2   U = cu2*upart2(eta), W = cv2*vpart2(eta):  eps U_tau = U_xx + W,  (U+W)_tau = -W
-  pde.family1   U = cu1*upart1(eta), W = cv1*vpart1(eta')*|d eta'/d eta| on the circle eta^2+eta'^2=1
-                (the substitution that maps the v-representation onto the u-representation): same pair
-  marshak       (U - (2/sqrt3) U_x)|x=0 = 0 for both u-families, u_const = 1
-  structure.*   u, v affine in the integrals with piece-independent weights, u_const = 1, v_const = 0,
-                c_uans = 1, sub-intervals tile [.,.] from the non-oscillatory end, split points are
-                zeros of the integrand they split, the call's arguments reach the common block
-  decay         -cu1*(pi/2)*eta*amplitude(upart1) -> 1 as eta -> 0 (two-sided bound)
-  so_wave       physical <-> dimensionless conversion through the public SuOlson class
+  structure.u/.v  on every branch of usolution / vsolution: the result is affine in the integrals, all pieces
+                  of an integral carry the same weight, u_const = 1 (independent of x, tau), v_const = 0,
+                  c_uans = 1, the pieces tile [0,1] from the non-oscillatory end, the integrand quad sees (the
+                  stub evaluates it when quad is called, stale common block before the call) is the integrand
+                  of THIS call's (x, tau, eps), the arguments are left in the common block; Dirichlet
+                  normalisation of cu1
+  weights         exact relations between the weights on every branch: cv1 = cu1, cv2 = -cu2, cu1 independent of
+                  x and tau, d cu2/d tau = -cu2 (so cu2 = k exp(-tau)), none is zero
+  pde.family2     U = k e^-tau upart2(eta), W = -k e^-tau vpart2(eta), k arbitrary:
+                  eps U_tau = U_xx + W  and  (U+W)_tau = -W        (u = U, v - u = W)
+  pde.family1     U = k upart1(eta), W = k vpart1(eta') |d eta'/d eta| on the circle eta^2 + eta'^2 = 1 (the
+  (+.amplitudes)  substitution that maps the first v-integral onto the first u-integral): same two equations,
+                  proved as a chain of lemmas (see PdeFamily)
+  marshak         (U - (2/sqrt3) U_x)|x=0 = 0 for both u-families (the constant part carries the 1)
+  decay           eta * amplitude(upart1) -> 1/sqrt 3 as eta -> 0 (two-sided envelopes); with the Dirichlet
+                  normalisation in structure.u this is the necessary condition for u -> 0 as x -> infinity
+  split.*         every split point (any zero of the root function the code pairs with an integrand) is a zero
+                  of that integrand
+  so_wave         physical <-> dimensionless conversion through the public SuOlson class
 
-Differentiation under the integral sign, Riemann-Lebesgue / Dirichlet and the accuracy of the
-quadrature are the analytic steps that are NOT encoded (see OUTSIDE).
+Differentiation under the integral sign, the Riemann-Lebesgue lemma / Dirichlet integral and the accuracy of
+the quadrature are the analytic steps that are NOT encoded (see OUTSIDE).
 """
 from fractions import Fraction
 import contextlib
@@ -36,25 +44,29 @@ from symx.framework import Obligation, V
 from symx.engine import SymReal, SymBool, term_of, current
 from symx.shim import Recorder
 from . import common as H
-from .common import K, Mode
+from .common import Mode
 
 EXPLANATION = ('The real usolution/vsolution, the four integrands, the phase/root functions and so_wave (through the public '
                'SuOlson class) are executed on symbolic reals; quad and brentq are replaced by contract stubs. The weights '
-               'with which the code combines the integrals are obtained as exact derivatives of the returned term with '
-               'respect to the stub symbols, the integrands are captured when quad is called. z3 decides that every '
-               'weighted integrand pair (u-part, v-part) solves eps*u_tau = u_xx + (v-u), v_tau = u-v for every value of '
-               'the integration variable (family 1 after the substitution eta^2 + eta\'^2 = 1 that relates the two '
-               'representations), that every u-integrand satisfies the homogeneous Marshak condition at x = 0 and the '
-               'constant part is exactly 1, that the Dirichlet normalisation needed for decay at infinity holds, that '
-               'the quadrature sub-intervals tile the range and are split at zeros of the integrand, and that so_wave '
-               'maps (t, z, T_bc, opacity, alpha) to (x, tau, eps) and (u, v) to temperatures as documented.')
+               'with which the code combines the integrals are the exact derivatives of the returned term with respect to '
+               'the stub symbols; z3 proves, on every branch, the exact relations between them, that the result is affine '
+               'in the integrals with constant part 1 (u) and u (v), that the sub-intervals tile [0,1], that quad is handed '
+               'the integrand of the current call although the module keeps state between calls, and that every split '
+               'point is a zero of the integrand it splits. With those relations z3 decides that every weighted integrand '
+               'pair (u-part, v-part) solves eps*u_tau = u_xx + (v-u), v_tau = u-v for every value of the integration '
+               'variable (family 1 after the substitution eta^2 + eta\'^2 = 1 that relates the two representations, as a '
+               'chain of lemmas), that every u-integrand satisfies the homogeneous Marshak condition at x = 0, and the '
+               'Dirichlet normalisation that decay at infinity requires. so_wave is checked through the public class: '
+               '(t, z, T_bc, opacity, alpha) -> (x, tau, eps) and (u, v) -> temperatures as documented.')
 BOUNDS = ['integration variable strictly inside the 1e-14 regularisation clamps of timmes.py (1e-14 < eta < 1-1e-14, '
-          'eta*eps > 1e-14); the clamped end layers are not covered',
+          'eta*eps > 1e-14); the clamped end layers are not covered; split.* obligations take the clamps as inactive',
           'oscillatory branch of each integral explored with 2 sub-intervals per integral in the quick tier '
-          '(3 in the thorough tier); both the non-oscillatory and the oscillatory branch of all four integrals explored',
+          '(3-4 in the thorough tier); the decision oscillatory / non-oscillatory is treated as nondeterministic, so '
+          'both branches of all four integrals are explored for every input',
           'float literals rt3 = 1.7320508075688772 and the CGS constants are compared with sqrt(3), c, a, k_B within the '
           'relative tolerances stated in the claim labels',
-          'so_wave obligation: usolution/vsolution replaced by arbitrary non-negative values u, v']
+          'so_wave obligation: usolution/vsolution replaced by arbitrary non-negative values u, v; one position per call '
+          '(the state left behind by earlier positions/calls is the symbolic stale common block of structure.*)']
 OUTSIDE = ['that the weighted integrals converge and may be differentiated under the integral sign; accuracy, truncation '
            '(loop stops when a piece is below 1e-8) and tolerance of quad/brentq',
            'decay to zero as x -> infinity beyond the necessary Dirichlet normalisation of the only non-integrable '
@@ -62,13 +74,15 @@ OUTSIDE = ['that the weighted integrals converge and may be differentiated under
            'the initial condition u = v = 0 at tau = 0 (it fixes the weight of family 2; not part of the property statement)',
            'existence of the roots brentq is asked for (the real call raises otherwise)']
 ASSUMPTIONS = ['quad stub: the value of an integral is an arbitrary real (in the oscillatory loop: above 1e-8 in absolute '
-               'value for all but the last piece); brentq stub: an arbitrary zero of the real root function inside the '
-               'bracket and strictly inside the clamps',
-               'function congruence for the atoms sin, cos, arccos, exp (equal arguments give equal values) is supplied '
-               'to z3 as instances',
-               'trusted trigonometric facts supplied as instances: cos(arccos c) = c and sin(arccos c) = sqrt(1-c^2) on '
-               '[-1,1]; sin(2 pi j) = 0 for the integer j of a split point (used outside z3: the claim proved is phase = 2 pi j); '
-               '1 - z <= exp(-z) <= 1 for z >= 0',
+               'value for all but the last piece); brentq stub: an arbitrary point of the bracket strictly inside the '
+               'clamps, assumed to be a zero of the real root function in the claims about split points',
+               'family 1: equal arguments give equal values of sin / exp / arccos (function congruence), used to replace '
+               'the atoms of the v-integrand by those of the u-integrand once z3 has proved the arguments equal; the last '
+               'step of the lemma chain (a common factor times a vanishing sum vanishes) is proved by z3 as a schema over '
+               'fresh reals and instantiated by hand',
+               'trusted facts supplied to z3 as instances: cos(arccos c) = c and sin(arccos c) = sqrt(1-c^2) on [-1,1] '
+               '(marshak); 1 + z <= exp(z) <= 1 for z <= 0 (decay). Used outside z3: sin(2 pi j) = 0 (split.*: the claim '
+               'proved is phase = 2 pi j); Dirichlet integral and Riemann-Lebesgue lemma (decay)',
                'CODATA 2018 values for the radiation constant and k_B/e, exact c, as reference (tolerance 1e-4)']
 META = {
     'level_text': ('Bounded symbolic check of the real Su-Olson code: position, time, epsilon, the integration variable and '
@@ -182,8 +196,11 @@ class RealNumerics(object):
         if self.pending is not None:
             rootf, r, j = self.pending
             rec['root'], rec['j'], rec['rooteq'] = r, j, rootf(r)
-            sc = max([abs(f(a + (b - a) * i / 16.0)) for i in range(1, 16)] + [1e-300])
-            rec['edge'] = f(r) / sc          # (at the polished root) relative to the size of the integrand on the piece
+            # size of the integrand within about a quarter period of the split point (the amplitude of upart2 /
+            # vpart2 changes by many orders of magnitude across a whole piece)
+            pts = [r + sg * (b - a) * i / 64.0 for i in range(1, 17) for sg in (-1.0, 1.0)]
+            sc = max([abs(f(p_)) for p_ in pts if 0.0 < p_ < 1.0] + [1e-300])
+            rec['edge'] = f(r) / sc          # at the polished root
         rec['probe'] = f(self.probes[name]) if name in self.probes else None
         self.calls.append(rec)
         self.pending = None
@@ -339,16 +356,24 @@ def arccos_facts(cx, vals):
     return SymBool(T.land(*conds)) if conds else None
 
 
+SPLIT_L1 = 'split point of %s: the integrand is sin(phase) times a factor'
+SPLIT_L2 = 'split point of %s: phase = 2 pi j at any zero of the root function used (so the integrand vanishes)'
+SPLIT_L3 = 'split point of %s: the root function used is phase - 2 pi j'
+SPLIT_L3G = SPLIT_L3 + ' [x-coefficient]'
+
+
 def split_claims(cx, name, edge, j, rooteq):
     """The integrand vanishes at a split point r: (i) it is sin(phase) times something, (ii) phase(r) == 2 pi j
     for every r with rootfunction(r) == 0 (the brentq contract, here a hypothesis of the claim); sin(2 pi j) = 0 is
-    the trusted fact.  Numeric replay: |integrand(r)| relative to its size on the piece, at the root of the real
-    root function in the bracket the code used, polished to machine precision."""
-    l1 = 'split point of %s: the integrand is sin(phase) times a factor' % name
-    l2 = 'split point of %s: phase = 2 pi j at any zero of the root function used (so the integrand vanishes)' % name
+    the trusted fact.  (iii) is the stronger statement rootfunction(r) == phase(r) - 2 pi j for EVERY r, which
+    holds for the code as written and, when it fails, gives the solver a witness without having to solve the root
+    equation (its x-coefficient half is decided in C18.split.*.gamma, by an encoder free of arccos atoms).
+    Numeric replay of all: |integrand(r)| relative to its size near r, at the root of the real root function in
+    the bracket the code used, polished to machine precision."""
+    l1, l2, l3 = SPLIT_L1 % name, SPLIT_L2 % name, SPLIT_L3 % name
     if not cx.symbolic:
-        cx.eq(l1, edge, 0, scale=[1.0], tol=1e-3)
-        cx.eq(l2, edge, 0, scale=[1.0], tol=1e-3)
+        for l in (l1, l2, l3):
+            cx.eq(l, edge, 0, scale=[1.0], tol=1e-3)
         return
     et = term_of(edge)
     sins = _fn_nodes([et], 'sin')
@@ -356,6 +381,7 @@ def split_claims(cx, name, edge, j, rooteq):
         cx.true(l1, False)
         return
     cx.true(l1, SymBool(T.eq(et, T.mul(sins[0], T.substitute(et, {sins[0]: T.ONE})))))
+    cx.eq(l3, rooteq, SymReal(sins[0].args[1]) - 2 * j * cx.const('PI'))
     cx.eq(l2, SymReal(sins[0].args[1]), 2 * j * cx.const('PI'), when=SymBool(T.eq(term_of(rooteq), T.ZERO)))
 
 
@@ -464,6 +490,51 @@ class SoWave(Obligation):
         cx.eq('SuOlson.temperature_rad = so_wave trad_ev', cx['temperature_rad'], cx['trad_ev'])
         cx.eq('SuOlson.temperature_mat = so_wave tmat_ev', cx['temperature_mat'], cx['tmat_ev'])
         cx.eq('SuOlson.position = z', cx['position'], z)
+
+
+class SoWaveRealValued(Obligation):
+    """The public call returns real, finite temperatures.  usolution / vsolution are quadratures: far ahead of the
+    wave their values are 0 up to the quadrature error and can come out slightly negative (observed on the real
+    code: usolution(0.3531064716310654, 0.00011756674792277548, 4.360219531383871) = -1.9e-8), so the contract of
+    the stub is u, v >= -1e-6 here, not u, v >= 0.  Definedness of the fourth roots is ASSERTED (cx.defined)."""
+
+    def __init__(self):
+        self.id = 'C18.so_wave.real_valued'
+        self.m, self.sm = H.mod(TM), H.mod(SM)
+        self.modules = [self.m, self.sm]
+        self.extra_shim = {'ExactSolution': Recorder}
+        self.functions = [self.m.so_wave, self.m.suolson, self.sm.SuOlson._run]
+        self.bounds = ('t>0, z>=0, T_bc>0, opacity>0, alpha>0 symbolic; usolution/vsolution replaced by arbitrary '
+                       'u, v >= -1e-6 (non-negative exact values with a quadrature error of at most 1e-6)')
+        self.timeout_s = 40
+
+    def build(self, mk):
+        m = self.m
+        u, v = mk('u'), mk('v')
+        saved = (m.usolution, m.vsolution)
+        m.usolution, m.vsolution = (lambda x, tau, eps: u), (lambda x, tau, eps, uans: v)
+        try:
+            s = self.sm.SuOlson(trad_bc_ev=mk('Tbc'), opac=mk('opac'), alpha=mk('alpha'))
+            f = H.first(H.fields(s(H.arr([mk('z')]), mk('t'))))
+        finally:
+            m.usolution, m.vsolution = saved
+        return {'temperature_rad': f['temperature_rad'], 'temperature_mat': f['temperature_mat'], '_raised': 0}
+
+    def on_exception(self, e):
+        return {'_raised': 1, '_exc': '%s: %s' % (type(e).__name__, str(e)[:80])}
+
+    def domain(self, V):
+        lo = T.const(Fraction(-1, 10 ** 6))
+        return [T.gt(V('t'), T.ZERO), T.ge(V('z'), T.ZERO), T.gt(V('Tbc'), T.ZERO), T.gt(V('opac'), T.ZERO),
+                T.gt(V('alpha'), T.ZERO), T.ge(V('u'), lo), T.ge(V('v'), lo)]
+
+    def claims(self, cx):
+        for name in ('temperature_rad', 'temperature_mat'):
+            label = 'SuOlson returns a real %s when u, v carry a quadrature error (>= -1e-6)' % name
+            if cx['_raised']:
+                cx.true(label, False)
+            else:
+                cx.defined(label, cx[name])
 
 
 # ------------------------------------------------------------------ integrand level
@@ -912,15 +983,49 @@ class Split(Kernel):
     fam1 = fam2 = False
     uses_derivatives = False
 
-    def __init__(self, name, npieces):
+    def __init__(self, name, npieces, part='phase'):
         self.name = name
+        self.part = part
         self.which = name[0]
         self.npieces = npieces
         self.edges = (name,)
-        self._init('C18.split.%s' % name,
+        self._init('C18.split.%s' % name + ('.gamma' if part == 'gamma' else ''),
                    'x>=0, tau>0, eps>0 symbolic; split point = any zero of the real root function strictly inside the '
                    'clamps; %d split points on the oscillatory branch; 1e-14 clamps taken as inactive' % (npieces + 1))
         self.extra_shim = {'max': _unclamped(max), 'min': _unclamped(min)}
+
+    def build(self, mk):
+        out = Kernel.build(self, mk)
+        key = self.which + ':osc_' + self.name
+        if not Mode.symbolic(mk):
+            if out[key]:
+                return out
+            # numeric replay: in the symbolic run the decision `oscillatory or not' is nondeterministic, so a
+            # witness need not have an x at which the real code splits this integral.  The claims hold for every
+            # x: look for split points at larger x with the other inputs of the witness.
+            for x2 in (1.0, 3.0, 10.0, 30.0, 100.0):
+                try:
+                    o2 = Kernel.build(self, lambda n: x2 if n == 'x' else mk(n))
+                except Exception:
+                    continue
+                if o2[key]:
+                    return o2
+            return out
+        if self.part != 'gamma':
+            return out
+        # part 'gamma': only the x-coefficients of root function and phase leave build (no arccos atom reaches
+        # the encoder, so that a witness for a wrong pairing is found quickly)
+        red = dict((k, v) for k, v in out.items() if ':n_' in k or ':osc_' in k)
+        w, name = self.which, self.name
+        for k in range(1, out[w + ':n_' + name] + 1):
+            tag = '%s_%d' % (name, k)
+            if (w + ':edge_' + tag) in out:
+                sins = _fn_nodes([term_of(out[w + ':edge_' + tag])], 'sin')
+                red[w + ':nsin_' + tag] = len(sins)
+                if len(sins) == 1:
+                    red[w + ':gq_' + tag] = SymReal(Df.d(term_of(out[w + ':rooteq_' + tag]), 'x'))
+                    red[w + ':gp_' + tag] = SymReal(Df.d(sins[0].args[1], 'x'))
+        return red
 
     def claims(self, cx):
         w, name = self.which, self.name
@@ -928,15 +1033,28 @@ class Split(Kernel):
         seen = False
         for k in range(1, n + 1):
             tag = '%s_%d' % (name, k)
-            if (w + ':edge_' + tag) in cx:
+            if self.part == 'gamma' and cx.symbolic:
+                if (w + ':nsin_' + tag) in cx:
+                    seen = True
+                    cx.true(SPLIT_L1 % name, cx[w + ':nsin_' + tag] == 1)
+                    if cx[w + ':nsin_' + tag] == 1:
+                        cx.eq(SPLIT_L3G % name, cx[w + ':gq_' + tag], cx[w + ':gp_' + tag])
+            elif (w + ':edge_' + tag) in cx:
                 seen = True
-                split_claims(cx, name, cx[w + ':edge_' + tag], cx[w + ':j_' + tag], cx[w + ':rooteq_' + tag])
+                if self.part == 'gamma':
+                    for l in (SPLIT_L1, SPLIT_L3G):
+                        cx.eq(l % name, cx[w + ':edge_' + tag], 0, scale=[1.0], tol=1e-3)
+                else:
+                    split_claims(cx, name, cx[w + ':edge_' + tag], cx[w + ':j_' + tag], cx[w + ':rooteq_' + tag])
         if not seen:
             cx.true('no split point on the non-oscillatory branch of %s' % name, not cx[w + ':osc_' + name])
 
 
 def obligations(tier):
-    npieces = 1 if tier == 'quick' else 2
-    obs = [SoWave(), Weights(), PdeFamily(2), PdeFamily(1), PdeFamily(1, 'amplitudes'), Marshak(), Decay(), Structure('u', npieces), Structure('v', npieces)]
-    obs += [Split(name, npieces) for w in 'uv' for name in INTEGRANDS[w]]
+    thorough = tier == 'thorough'
+    w = Weights()
+    w.npieces = 2 if thorough else 1
+    obs = [SoWave(), SoWaveRealValued(), w, PdeFamily(2), PdeFamily(1), PdeFamily(1, 'amplitudes'), Marshak(), Decay(),
+           Structure('u', 3 if thorough else 1), Structure('v', 3 if thorough else 1)]
+    obs += [Split(name, 2 if thorough else 1, part) for w_ in 'uv' for name in INTEGRANDS[w_] for part in ('gamma', 'phase')]
     return obs
